@@ -235,6 +235,7 @@ func (c *checker) boolCell(v interface{}, n num) {
 
 func main() {
 	r := lib.NewReport("C02")
+	defer r.Guard()
 	c := &checker{r: r, nontriv: map[string]bool{}}
 	ts := targets()
 	var sources []interface{}
